@@ -64,17 +64,10 @@ Definition known1_C18 (c : case_C18) : bool :=
   c18_schema_case c &&
   existsb (fun k => any_pair18 slot_clash (values_of (c18_jobs c) k)) (ref_keys (c18_jobs c)).
 
-(* tag 2: exclude_const where every selected job holds a MAPPING under a leaf key (so the typed index
-   has the single _DictPlaceholder entry and the key counts as constant) although the mappings differ,
-   e.g. {'a': {}} and {'a': {'x': 1}} *)
-Definition known2_C18 (c : case_C18) : bool :=
-  c18_schema_case c && c18_excl c &&
-  existsb (fun k =>
-             forallb (fun j => match sp_value (snd j) k with Some v => is_obj v | None => false end) (c18_jobs c)
-             && negb (agree_on (c18_jobs c) k)) (ref_keys (c18_jobs c)).
-
+(* (tag 2 -- exclude_const dropping a key under which every job holds a mapping, one of them empty --
+   was repaired in /repo; Schema.schema_const models the repaired test, C18Const.v proves it exact.) *)
 Definition known_tag_C18 (c : case_C18) : N :=
-  if known1_C18 c then 1%N else if known2_C18 c then 2%N else 0%N.
+  if known1_C18 c then 1%N else 0%N.
 
 Fixpoint known_aux18 (cs : list case_C18) (i : N) : list N :=
   match cs with
